@@ -219,6 +219,34 @@ pub fn resolve_once(
     }
 }
 
+/// The same resolution on a compiler handed in as it is - no delegating wrapper in between. A
+/// wrapper only forwards the trait methods it knows; what the resolver and the real instance agree
+/// on through a method added later (with a default body) would silently bypass it.
+pub fn resolve_plain<C>(w: &W, tx: &tir::Tx, args: &ArgMap, comp: &mut C, max_rounds: usize, cancel_after: Option<u32>) -> (Outcome, u32)
+where
+    C: tx3_tir::compile::Compiler<Expression = tir::Expression, CompilerOp = tir::CompilerOp> + Send,
+{
+    w.lock().unwrap().begin_resolution();
+    let store = SimStore::new(w);
+    let any = AnyTir::V1Beta0(tx.clone());
+    let (end, stats) = {
+        let fut = tx3_resolver::resolve_tx(any, args, comp, &store, max_rounds);
+        drive(w, fut, cancel_after, 4_000)
+    };
+    let outcome = match end {
+        RunEnd::Done(Ok(c)) => Outcome::Ok(crate::compiler::copy_compiled(&c)),
+        RunEnd::Done(Err(e)) => Outcome::Err {
+            kind: err_kind(&e),
+            text: short(format!("{e}")),
+        },
+        RunEnd::Cancelled(k) => Outcome::Cancelled(k),
+        RunEnd::Panicked(p) => Outcome::Panic(p),
+        RunEnd::Hung(s) => Outcome::Hung(s),
+    };
+    w.lock().unwrap().note(format!("resolution -> {}", outcome.kind()));
+    (outcome, stats.polls)
+}
+
 // ---------------------------------------------------------------- intent
 
 pub fn q_val(q: &Q, args: &ArgMap) -> Option<i128> {
